@@ -229,6 +229,21 @@ impl<'a> Gen<'a> {
     }
 
     pub fn any(&mut self, depth: u32) -> Expr {
+        if depth > 0 && self.r.chance(1, 150) {
+            // unusual sizes: a long list literal, or a value buried 20..40 levels deep
+            let inner = self.any(depth - 1);
+            return if self.r.chance(1, 2) {
+                let n = 20 + self.r.usize(40);
+                let at = self.r.usize(n);
+                Expr::List((0..n).map(|i| if i == at { inner.clone() } else { lit_i((i % 7) as i64) }).collect())
+            } else {
+                let mut e = inner;
+                for i in 0..(20 + self.r.usize(20)) {
+                    e = if i % 3 == 0 { Expr::List(vec![e]) } else if i % 3 == 1 { tern(lit_b(true), e, lit_i(0)) } else { Expr::Map(vec![(lit_s("k"), e)]) };
+                }
+                e
+            };
+        }
         if depth > 0 && self.knobs.observable > 0 && self.r.chance(1, 60) {
             // a call to a function that exists nowhere: its arguments are still evaluated, in order, first
             let n = 1 + self.r.usize(2);
@@ -519,6 +534,16 @@ impl<'a> Gen<'a> {
 pub fn base_ctx(r: &mut Prng, names: &[&str]) -> CtxSpec {
     let mut vars = vec![];
     for n in names {
+        if r.chance(1, 12) {
+            // unusual but legal bindings: an explicit None, a negative number, a nested list
+            let v = match r.below(3) {
+                0 => Val::None,
+                1 => Val::int(-r.range(1, 9)),
+                _ => Val::List(vec![Val::List(vec![Val::int(1)]), Val::s("a b"), Val::None]),
+            };
+            vars.push((n.to_string(), v));
+            continue;
+        }
         if r.chance(1, 2) {
             let ty = *r.pick(&[Ty::Int, Ty::Int, Ty::Bool, Ty::Str, Ty::ListInt, Ty::Num]);
             vars.push((n.to_string(), const_of(r, ty)));
